@@ -138,7 +138,9 @@ def gen_project(rnd, idx):
         nm = fresh("broken")
         decoys[nm] = "unparsable-file"
         bad = rnd.choice(["#[tauri::command]\npub fn %s( {\n" % nm, "this is not rust at all {{{ %s" % nm, "#[tauri::command]\npub fn %s() -> { }\nfn ok() {}" % nm,
-                          "pub fn %s() { let x = ; }" % nm, "\"unterminated %s" % nm])
+                          "pub fn %s() { let x = ; }" % nm, "\"unterminated %s" % nm,
+                          "#[tauri::command]\npub fn %s() {\n    let greeting = \"日本語のあいさつ\" \"x\";\n}\n" % nm,
+                          "// ünïcödé prefix\npub fn %s() { let ñ = \"é\" ; ; ) }\n" % nm])
         files.append((rnd.choice(["broken.rs", "a/broken.rs", "zz_broken.rs", "0_broken.rs"]), bad))
         feats.add("unparsable-neighbour")
     if rnd.random() < 0.2:
